@@ -145,6 +145,25 @@ impl Prop for BitsProp {
     fn sample(&self, c: &BitsCase) -> Value {
         abbreviate_bits(c)
     }
+    /// long, very sparse (and very dense) vectors: one select hint range spans thousands of
+    /// superblocks, many of them without a single one (zero). The generated cases of the quick
+    /// tier stop at 1.2 Mbit, where such ranges do not exist.
+    fn fixed_cases(&self, tier: Tier) -> Vec<BitsCase> {
+        let mut v = Vec::new();
+        let sizes: &[usize] = match tier {
+            Tier::Quick => &[5_000_003],
+            Tier::Thorough => &[5_000_003, 21_000_000],
+        };
+        for (j, &kind) in self.kinds.iter().enumerate() {
+            for &n in sizes {
+                for (i, num) in [3u32, 40, 65536 - 3, 65536 - 40].into_iter().enumerate() {
+                    let seed = (j * 16 + i) as u64 + n as u64;
+                    v.push(BitsCase { kind, bvhow: BvHow::Bools, wrap: if i % 2 == 0 { WrapHow::New } else { WrapHow::From }, content: BitContent::Density { n, num, seed }, plan_seed: seed });
+                }
+            }
+        }
+        v
+    }
     fn simplify(&self, c: &BitsCase) -> Vec<BitsCase> {
         simplify_bits(&c.content)
             .into_iter()
